@@ -55,6 +55,7 @@ type Sched struct {
 	Events     []Event
 	Schedule   []int // thread id chosen at every switch (for printing)
 
+	FineGrained bool // scheduling points at every statement of the core files, not only at sync operations
 	TimerBudget int // how many timer/ticker firings the environment may still deliver
 	Clock       int64
 	Locals      map[interface{}]interface{} // per-execution storage for shims (closed channels etc.)
@@ -316,6 +317,16 @@ func (s *Sched) switchFrom(me *Thread) {
 	if s.aborting {
 		panic(abortSignal{})
 	}
+}
+
+// Yield is what the rewriter inserts before every statement of the core concurrent files. It is a
+// scheduling point only when the running scenario asked for statement granularity.
+func Yield() {
+	s := active.Load()
+	if s == nil || !s.FineGrained || s.aborting {
+		return
+	}
+	s.Point("stmt")
 }
 
 // Go is what a rewritten `go f(x)` statement calls. Under a scheduler the new goroutine is a
